@@ -334,7 +334,7 @@ def harnesses(tier):
     nmax_age = 4 if tier == "quick" else 5
     shards = []
     for n in range(1, nmax + 1):
-        for v in tg.all_parent_vectors(n):
+        for v in tg.ordered_representatives(tg.all_parent_vectors(n)):
             for level in ("node", "tree", "age"):
                 if level == "age":
                     if n > nmax_age:
